@@ -91,7 +91,7 @@ func genC20(r *Rand, tier string, i int) *h.Scenario {
 			bs.Total = int64(1) << uint(r.Range(4, 40))
 			bs.Total += r.Int63n(bs.Total)
 		}
-		kinds := []int{h.DecElapsed, h.DecAvgSpeed, h.DecAvgETA, h.DecEwmaSpeed, h.DecEwmaETA, h.DecCounters, h.DecPercentage, h.DecTotal, h.DecCurrent}
+		kinds := []int{h.DecElapsed, h.DecAvgSpeed, h.DecAvgETA, h.DecEwmaSpeed, h.DecEwmaETA, h.DecCounters, h.DecPercentage, h.DecTotal, h.DecCurrent, h.DecInvCurrent}
 		for k, n := 0, r.Range(2, 5); k < n; k++ {
 			d := h.DecSpec{Kind: kinds[r.Intn(len(kinds))], Style: r.Intn(4), Mark: true}
 			switch d.Kind {
@@ -107,7 +107,7 @@ func genC20(r *Rand, tier string, i int) *h.Scenario {
 				} else {
 					d.Fmt = []string{"", "%d / %d", "% d / % d", "%.1f / %.1f", "% .2f / % .2f", "%f / %f"}[r.Intn(6)]
 				}
-			case h.DecTotal, h.DecCurrent:
+			case h.DecTotal, h.DecCurrent, h.DecInvCurrent:
 				if d.Style%3 == 0 {
 					d.Fmt = []string{"", "%d"}[r.Intn(2)]
 				} else {
@@ -116,13 +116,20 @@ func genC20(r *Rand, tier string, i int) *h.Scenario {
 			case h.DecPercentage:
 				d.Fmt = []string{"", "%d", "% d", "%.1f", "% .2f", "%f", "%e", "%g"}[r.Intn(8)]
 			}
+			if (d.Kind == h.DecElapsed || d.Kind == h.DecAvgSpeed || d.Kind == h.DecAvgETA) && r.Bool(0.25) {
+				// a resumed task: the decorator is told that it started a while ago
+				d.StartOff = []int64{1, 999, 1e6, 1e9, 59e9, 61e9, 3600e9, 7 * 3600e9}[r.Intn(8)]
+			}
+			if (d.Kind == h.DecEwmaSpeed || d.Kind == h.DecEwmaETA) && r.Bool(0.2) {
+				d.TSafe = true
+			}
 			if d.Kind == h.DecEwmaETA && bs.Total <= 1000 && r.Bool(0.4) {
 				d.Age = 1 // median window instead of the recording average
 			}
 			// wrappers must not hide samples
 			if (d.Kind == h.DecEwmaSpeed || d.Kind == h.DecEwmaETA) && r.Bool(0.5) {
 				for w, m := 0, r.Range(1, 3); w < m; w++ {
-					d.Wrap = append(d.Wrap, []int{h.WrapMeta, h.WrapOnCompleteMeta, h.WrapOnAbortMeta}[r.Intn(3)])
+					d.Wrap = append(d.Wrap, []int{h.WrapMeta, h.WrapOnCompleteMeta, h.WrapOnAbortMeta, h.WrapOnCompleteMetaOrOnAbortMeta}[r.Intn(4)])
 				}
 				if r.Bool(0.3) {
 					// a wrapper that replaces the text once the bar has finished: the printed value is
@@ -497,6 +504,17 @@ func judgeC20(hi *Hist) []*Violation {
 			adjusts[op.Op.Bar] = append(adjusts[op.Op.Bar], adj{op.Inv, r, op.Op.N})
 		}
 	}
+	// a decorator whose average sits behind the library's mutex wrapper yields in the middle of the row: the
+	// clock may move between the spy's call and the calls of the decorators after it, so "elapsed at the
+	// spy's instant" is not what those decorators saw; the time-based values of such a bar are not read
+	yields := map[int]bool{}
+	for b := range hi.Sc.Bars {
+		for _, l := range [][]h.DecSpec{hi.Sc.Bars[b].Pre, hi.Sc.Bars[b].App} {
+			for _, d := range l {
+				yields[b] = yields[b] || d.TSafe
+			}
+		}
+	}
 	frozen := map[dk]string{}
 	for fi, f := range frames {
 		for _, g := range f.Groups {
@@ -520,6 +538,13 @@ func judgeC20(hi *Hist) []*Violation {
 					continue // the scenario's format does not fit the unit: not the library's problem
 				}
 				t0, hasT0 := born[k]
+				t0 -= spec.StartOff
+				if yields[g.Bar] {
+					hasT0 = false
+				}
+				if spec.StartOff > 0 {
+					note("c20_given_start_checked")
+				}
 				if spec.Kind == h.DecAvgSpeed || spec.Kind == h.DecAvgETA {
 					at := spyAt(fi, g.Bar)
 					for _, a := range adjusts[g.Bar] {
@@ -692,7 +717,7 @@ func judgeC20(hi *Hist) []*Violation {
 					}
 				case h.DecPercentage:
 					checkPercentage(fi, g.Bar, txt, spy, add)
-				case h.DecCounters, h.DecTotal, h.DecCurrent:
+				case h.DecCounters, h.DecTotal, h.DecCurrent, h.DecInvCurrent:
 					checkSizes(fi, g.Bar, spec, txt, spy, add)
 				}
 			}
@@ -756,7 +781,7 @@ func judgeC20(hi *Hist) []*Violation {
 
 func decName(k int) string {
 	return map[int]string{h.DecElapsed: "Elapsed", h.DecAvgSpeed: "AverageSpeed", h.DecAvgETA: "AverageETA", h.DecEwmaSpeed: "MovingAverageSpeed", h.DecEwmaETA: "MovingAverageETA",
-		h.DecCounters: "Counters", h.DecPercentage: "Percentage", h.DecTotal: "Total", h.DecCurrent: "Current"}[k]
+		h.DecCounters: "Counters", h.DecPercentage: "Percentage", h.DecTotal: "Total", h.DecCurrent: "Current", h.DecInvCurrent: "InvertedCurrent"}[k]
 }
 
 // checkSizes parses size / counter texts back and compares with the spy's statistics.
@@ -800,6 +825,11 @@ func checkSizes(fi, bar int, spec *h.DecSpec, txt string, spy h.SpyRec, add func
 		parts, wants = []string{txt}, []int64{spy.Total}
 	case h.DecCurrent:
 		parts, wants = []string{txt}, []int64{spy.Current}
+	case h.DecInvCurrent:
+		if spy.Current > spy.Total {
+			return // a stream of unknown size that has overtaken its guessed total: nothing is "left"
+		}
+		parts, wants = []string{txt}, []int64{spy.Total - spy.Current}
 	}
 	for i, p := range parts {
 		if wants[i] < 0 {
